@@ -324,8 +324,10 @@ def gen_key_history(g, nfmt=4, length=None, with_maps=True, mseq=None):
     # absent and explicit identity are the same format: keep both spellings in most histories
     fmts = ([None, "identity"] + g.r.sample(gen.KEYFORMATS[2:], max(0, nfmt - 2))) if g.chance(0.7) else g.r.sample(gen.KEYFORMATS, min(nfmt, len(gen.KEYFORMATS)))
     n = length if length is not None else g.r.randint(1, 10)
+    # the EXT-X-VERSION line of the INPUT says nothing about how its keys are scoped (a low number next to KEYFORMAT attributes
+    # is a defect of the playlist's author, not a reason to read the keys differently)
     a = {"target": 10, "mseq": mseq, "dseq": None, "ptype": None, "iframes": False, "indep": False, "start": None,
-         "endlist": g.chance(0.5), "version_tag": None, "unknown": [], "d17": False, "segs": []}
+         "endlist": g.chance(0.5), "version_tag": g.pick([None, None, 1, 3, 4, 5, 7]), "unknown": [], "d17": False, "segs": []}
     pending = []
     mp = None
     for _ in range(n):
@@ -655,6 +657,11 @@ class C07(Prop):
                     out.append(mk("q", k, "media_preset", hx(preset), hx(text), exp=expected_key_views(a), mseq=a["mseq"], overflow=False, nexplicit=nexplicit, model=False))
             if not overflow:
                 prev_text = text
+            if k % 6 == 1 and not overflow and n >= 2 and nexplicit == 0:
+                # the value after segments were taken out through the public `segments` field (a window slid by hand): its text still
+                # carries no derived IV — `IV=` belongs to explicit IVs only
+                idx = [0] if g.chance(0.5) else sorted(g.r.sample(range(n), g.r.randint(1, n - 1)))
+                out.append(mk("r", k, "media_remove", hx(gen.render_media(a, None)), *idx, exp=None, mseq=a["mseq"] or 0, overflow=False, nexplicit=0, model=False))
             if k % 5 == 0 and not overflow and (a["mseq"] or 0) == 0:
                 # the same history through the builder with every segment numbered explicitly (number = media sequence + position)
                 script = ["Tn 10000000000"] + (["M %d" % a["mseq"]] if a["mseq"] is not None else [])
@@ -678,6 +685,11 @@ class C07(Prop):
                     "detail": "" if ok else "segment numbers beyond 2^64-1 must be rejected, got " + res_kind(i), "stats": {"overflow": 1}}
         if node is None:
             return {"agree": (m == i) if m is not None else None, "ok": False, "nontrivial": False, "detail": "rejected: " + res_kind(i)}
+        if c["op"] == "media_remove":
+            text = decode_s(field(node, "text")[1]) if field(node, "text") else ""
+            ok = ",IV=" not in text and ":IV=" not in text
+            return {"agree": None, "ok": ok, "nontrivial": True, "stats": {"removed": 1},
+                    "detail": "" if ok else "after segments.remove(..) the written text carries an IV attribute although no key has an explicit IV: " + text[:400]}
         segs = media_segs(first_dump(node))
         nums = [int(field(s, "num")[1]) for s in segs]
         views = [seg_key_view(s) for s in segs]
@@ -739,6 +751,8 @@ class C08(Prop):
     def _case(self, idp, n, chain, maprange=None, maps=None):
         """maps: {segment index: (uri, None | (len, off|None))} — EXT-X-MAP tags anywhere, possibly on the segment's own resource"""
         lines = ["#EXTM3U", "#EXT-X-TARGETDURATION:10"]
+        if n % 3 == 1:
+            lines.append("#EXT-X-MEDIA-SEQUENCE:%d" % [1, 7, 2 ** 32][n % 9 // 3])      # a sliding window resolves its ranges like any other playlist
         maps = dict(maps or {})
         if maprange is not None:
             maps[0] = ("init.mp4", maprange)
@@ -966,6 +980,9 @@ class C09(Prop):
         for k, d in enumerate(durs):
             lines.append("#EXTINF:%d.%09d," % (d // 10 ** 9, d % 10 ** 9))
             lines.append("s%d.ts" % k)
+        if n % 4 == 2:
+            # playlist-level tags may stand anywhere, EXT-X-ENDLIST included: the segments behind it are still part of the playlist
+            lines.insert(2 + 2 * ((n // 4) % (len(durs) + 1)), ["#EXT-X-ENDLIST", "#EXT-X-PLAYLIST-TYPE:VOD", "#EXT-X-INDEPENDENT-SEGMENTS"][(n // 8) % 3])
         text = "\n".join(lines) + "\n"
         # durations above 2^24 s are not exactly representable after the f64 text conversion: the
         # reported duration decides, so those cases are judged on the builder path only
@@ -1066,6 +1083,12 @@ class C10(Prop):
                 if g.chance(0.08):
                     a["version_tag"] = g.pick([8, 9, 12, 0, 255])
                 out.append(mk("a", n, "master", hx(gen.render_master(a, g)), kind="master"))
+        # every in-stream id on its own (SERVICE1..63 ask for protocol version 7, CC1..4 do not): nothing else in the playlist
+        # raises the version
+        ids = ["CC%d" % j for j in range(1, 5)] + ["SERVICE%d" % j for j in range(1, 64)]
+        for j, iid in enumerate(ids):
+            text = '#EXTM3U\n#EXT-X-MEDIA:TYPE=CLOSED-CAPTIONS,GROUP-ID="cc",NAME="n",INSTREAM-ID="%s"\n#EXT-X-STREAM-INF:BANDWIDTH=1,CLOSED-CAPTIONS="cc"\nv.m3u8\n' % iid
+            out.append(mk("i", 100000 + j, "master", hx(text), kind="master"))
         return out
 
     def judge(self, run, c, m, i):
@@ -1109,6 +1132,13 @@ class C11(Prop):
                 text = gen.render_master(a, g)
                 out.append(mk("a", n, "repeat_master", hx(text), 4, base="master", model=False))
                 out.append(mk("A", n, "master", hx(text), base="master"))
+                if n % 2 == 0:
+                    # a failed parse (the text cut at some line, e.g. right behind a STREAM-INF line) leaves nothing behind in the
+                    # thread: the next parse is a function of its own text
+                    ls = text.split("\n")
+                    cuts = [j + 1 for j, l_ in enumerate(ls) if l_.lstrip().startswith("#EXT-X-STREAM-INF")] or [max(1, len(ls) // 2)]
+                    cut = g.pick(cuts) if g.chance(0.7) else g.r.randrange(1, len(ls) + 1)
+                    out.append(mk("v", n, "master_twice", hx("\n".join(ls[:cut])), hx(text), base="mtwice", model=False))
             else:
                 a = gen_key_history(g, length=g.r.randint(3, 25))
                 text = gen.render_media(a, None)
@@ -1148,6 +1178,11 @@ class C11(Prop):
             nkeys = unparse(t[1][4]).count("(key ")
             return {"agree": None, "ok": ok, "nontrivial": nkeys >= 2 or c["meta"]["base"] == "master",
                     "detail": "" if ok else "repetitions differ: flags=%s across-processes=%s single-parse=%s" % (flags, same_proc, single), "stats": {"repeat": 1}}
+        if c["op"] == "master_twice":
+            partner = run.impl.get("A" + c["id"][1:])
+            ok = (i == partner)
+            return {"agree": None, "ok": ok, "nontrivial": res_kind(i) == "ok", "stats": {"after_failure": 1},
+                    "detail": "" if ok else "a master playlist parsed after another (cut) text in the same thread differs from its fresh parse: %s vs %s" % ((i or "")[:300], (partner or "")[:300])}
         if c["op"] == "media_twice":
             partner = run.impl.get("W" + c["id"][1:])
             ok = (i == partner)
@@ -1283,6 +1318,8 @@ class C12(Prop):
             return {"agree": agree, "ok": ok, "nontrivial": True, "detail": "" if ok else "an unrecognised attribute changes the parsed tag", "stats": {"foreign_attr": 1}}
         bn, node = mres(base), mres(i)
         if bn is None:
+            if node is not None and res_kind(base) == "err":
+                return {"agree": agree, "ok": False, "nontrivial": True, "detail": "the canonical presentation is rejected while another presentation of the same playlist is accepted"}
             return {"agree": agree, "ok": None, "nontrivial": False}
         if node is None:
             return {"agree": agree, "ok": False, "nontrivial": True, "detail": "a presentation variant of an accepted text is rejected"}
@@ -1366,7 +1403,7 @@ class C15(Prop):
         # a malformed line of a kind, alone or next to the lines that make a text acceptable at all: never accepted by the other parser
         for x, bads in MALFORMED.items():
             for bad in bads:
-                for pre, post in (((), ()), ((7,), ()), ((7,), (0, 21)), ((), (14, 21)), ((13,), ())):
+                for pre, post in (((), ()), ((7,), ()), ((7,), (0, 21)), ((), (14, 21)), ((13,), ()), ((), (21,)), ((), (0,)), ((), (7,)), ((13,), (5,)), ((), (12,))):
                     seq = tuple(pre) + (x,) + tuple(post)
                     ls = [REPR_LINES[y] for y in pre] + [bad] + [REPR_LINES[y] for y in post]
                     text = "#EXTM3U\n" + "".join(l + "\n" for l in ls)
@@ -1644,7 +1681,9 @@ class C17(Prop):
                 if sg["map"] is not None and gen.keys_in_effect(hist + sg["keys_before"][: sg["map"]["pos"]]) not in ([], ):
                     sg["map"] = None
                 hist = gen.keys_in_effect(hist + sg["keys_before"])
-            out.append(mk("p", len(out), "bown", hx(builder_script(a, g, dup_keys=g.chance(0.5))), model=False, kind="bown"))
+            # (with an allowable excess duration set on the builder in half of them: the built value carries it, and so do its copies)
+            xs = ("X %d\n" % g.pick([1, 500000000, 2000000000, 10 ** 12])) if g.chance(0.5) else ""
+            out.append(mk("p", len(out), "bown", hx(xs + builder_script(a, g, dup_keys=g.chance(0.5))), model=False, kind="bown"))
             cnt = g.r.randint(1, 5)
             use_list = g.chance(0.5)
             m_ = g.r.randint(0, cnt)
@@ -1657,7 +1696,7 @@ class C17(Prop):
                 rest = list(range(m_, cnt))
                 g.r.shuffle(rest)
                 calls = [None] * m_ + rest
-            script = ["Tn 10000000000"]
+            script = ["Tn 10000000000"] + (["X %d" % g.pick([1, 10 ** 9])] if g.chance(0.4) else [])
             for j, x in enumerate(calls):
                 script += ["seg -" if x is None else "seg %d" % x, "dur 5000000000", "uri s%d.ts" % j, "end list" if use_list else "end push"]
             script += (["segments"] if use_list else []) + ["build"]
@@ -1749,7 +1788,7 @@ class C05(Prop):
                             n += 1
         # every attribute of every tag line of a few rich playlists, replaced in turn by tokens with stray / unbalanced quotes and
         # other one-character surprises (a conversion that became fallible behind an unwrap shows only on its own attribute)
-        QUOTE_TOKENS = ['"', '"x', 'x"', 'x"y', '""x', '', ' ', '\\"', "'"]
+        QUOTE_TOKENS = ['"', '"x', 'x"', 'x"y', '""x', '', ' ', '\\"', "'", "-0", "-0.0", "-1e-46", "nan", "inf", "1e400", "+1", "0x", "18446744073709551616"]
         gq = gen.G(seed * 1000003 + 505)
         RICH = [(False, '#EXTM3U\n#EXT-X-VERSION:7\n#EXT-X-INDEPENDENT-SEGMENTS\n#EXT-X-START:TIME-OFFSET=1.5,PRECISE=YES\n'
                         '#EXT-X-MEDIA:TYPE=AUDIO,URI="a.m3u8",GROUP-ID="aud",LANGUAGE="en",ASSOC-LANGUAGE="fr",NAME="English",DEFAULT=YES,AUTOSELECT=YES,CHARACTERISTICS="public.accessibility.describes-video",CHANNELS="2"\n'
@@ -2041,7 +2080,7 @@ class C13(Prop):
                                  "subs": g.pick([None, "g1", "g2"]), "cc": g.pick([None, "g1", "g2", "NONE", "q:NONE"])})
             if g.chance(0.4):
                 variants.append({"kind": "iframe", "video": g.pick([None, "g1", "g2"])})
-            sdata = [(g.pick(["a", "b"]), g.pick([None, "en", "de"])) for _ in range(g.pick([0, 1, 2, 2, 3, 4, 5]))]
+            sdata = [(g.pick(["a", "b", "a-en", "a-"]), g.pick([None, "en", "de", "-en"])) for _ in range(g.pick([0, 1, 2, 2, 3, 4, 5]))]   # ids and languages that collide once they are glued together
             text = master_text(media, variants, sdata, g if g.chance(0.7) else None)
             exp = master_consistent(media, variants, sdata)
             d19 = ("CLOSED-CAPTIONS", "NONE") in media and any(v["kind"] == "s" and v["cc"] == "NONE" for v in variants)
@@ -2114,7 +2153,7 @@ class C13(Prop):
                 for _ in range(g.pick([1, 1, 2, 3])):
                     variants.append({"kind": "s", "audio": g.pick([None, "g1", "g2"]), "video": g.pick([None, None, "g1"]),
                                      "subs": g.pick([None, "g1"]), "cc": g.pick([None, "g1", "NONE"])})
-            sdata = [(g.pick(["a", "b"]), g.pick([None, "en", "de"])) for _ in range(g.pick([0, 0, 1, 2, 3, 4]))]
+            sdata = [(g.pick(["a", "b", "a-en"]), g.pick([None, "en", "de"])) for _ in range(g.pick([0, 0, 1, 2, 3, 4]))]
             exp = master_consistent(media, variants, sdata)
             out.append(mk("m", n, "bmaster", hx(bscript(media, variants, sdata, g.chance(0.6), g.chance(0.6), g.chance(0.6))), exp=exp, kind="accept", model=False))
             n += 1
@@ -2318,7 +2357,8 @@ class C14(Prop):
                     out.append(mk("t", n, "tag", ty, hx(attr_line(prefix, attrs)), exp=valid and rule(vals), tag=tagname, path="text"))
                     n += 1
         subsets("#EXT-X-SESSION-DATA:", "ExtXSessionData", ["DATA-ID", "VALUE", "URI", "LANGUAGE"],
-                lambda v: "DATA-ID" in v and (("VALUE" in v) != ("URI" in v)), "sessiondata", lambda nm: ('"x"', True), count_tier(tier, 2, 8))
+                lambda v: "DATA-ID" in v and (("VALUE" in v) != ("URI" in v)), "sessiondata",
+                lambda nm: (g.pick(['"x"', '"x"', '""', '" "']), True), count_tier(tier, 4, 12))      # an attribute with an empty value is still present
 
         def keyval(nm):
             if nm == "METHOD":
@@ -2609,7 +2649,9 @@ class C18(Prop):
 LAW_POOLS = {
     "Float": ["0", "-0", "1.5", "-1.5", "2", "1e-40", "-1e-40", "3.4028235e38", "0.1", "0.10000001"],
     "UFloat": ["0", "1.5", "2", "1e-40", "3.4028235e38", "0.1", "0.10000001", "25", "29.97"],
-    "KeyFormatVersions": ["1/2#2", "3/4#2", "1/2/3#2", "1/2/3", "1", "empty", "1/2/3#1+9", "1/9", "2/1", "1/2/3/4/5/6/7/8/9", "1/2/3/4/5/6/7/8/9#1", "255", "1/2/3#0", "9/9/9#2+1"],
+    "KeyFormatVersions": ["1/2#2", "3/4#2", "1/2/3#2", "1/2/3", "1", "empty", "1/2/3#1+9", "1/9", "2/1", "1/2/3/4/5/6/7/8/9", "1/2/3/4/5/6/7/8/9#1", "255", "1/2/3#0", "9/9/9#2+1",
+                          # a list and the same list followed by zeros only; the empty list and a single zero
+                          "1/0", "1/0/0", "0", "0/0", "1/2/0", "1/2"],
     "ByteRange": ["1", "1@0", "1@5", "6@0", "0", "0@0", "5@1"],
     "Channels": ["1", "2", "2/JOC", "1/JOC"],
     "Resolution": ["1x2", "2x1", "1x1", "10x9"],
@@ -2860,6 +2902,8 @@ class C20(Prop):
             use_list = g.chance(0.5)
             script = ["Tn 10000000000"] + (["M %d" % mseq] if mseq is not None else [])
             effs = []
+            mixed = use_list and cnt >= 2 and g.chance(0.3)
+            npush = g.r.randint(1, cnt - 1) if mixed else 0
             for j, x in enumerate(nums):
                 implicit = g.chance(0.25)
                 seg_lines = ["seg -" if implicit else "seg %d" % x, "dur 5000000000"]
@@ -2874,8 +2918,11 @@ class C20(Prop):
                     for ln in seg_lines:
                         if ln.startswith("num "):
                             eff = None if ln == "num none" else int(ln.split()[1])
-                effs.append(eff)
-                script += seg_lines + ["uri s%d.ts" % j, "end list" if use_list else "end push"]
+                # mixed: the first segments are pushed, the others handed over as a list — segments(..) REPLACES what the builder holds
+                pushed_first = mixed and j < npush
+                if not pushed_first:
+                    effs.append(eff)
+                script += seg_lines + ["uri s%d.ts" % j, "end push" if (pushed_first or not use_list) else "end list"]
             script += (["segments"] if use_list else []) + ["build"]
             # independent expectation: the slot vector (index = position); explicit numbers select their slot, implicit segments go
             # behind the last slot (push_segment: in call order; segments(): explicit ones first, then the implicit ones)
